@@ -17,8 +17,8 @@ tvars == <<vars, l>>
 
 E == Tr[l]
 
-TFamOf(k)   == IF k \in {"k3", "k5"} THEN "v6u" ELSE "v4u"
-TAttrIdx(k, a) == <<TFamOf(k), a>>
+TFamOf(k)   == IF k \in {"k3", "k5"} THEN "v6u" ELSE IF k = "k7" THEN "v4l" ELSE "v4u"     \* k7: a labeled route (the label is payload: it travels with the attributes x / y)
+TAttrIdx(k, a) == <<TFamOf(k), IF k = "k7" /\ a \in {"x", "y"} THEN "xy" ELSE a>>   \* the attribute index of the route text: x and y of the labeled key differ in the label only
 TGrouped(f) == f = "v4u"
 
 IsEvent(n) == l <= Len(Tr) /\ E.name = n /\ l' = l + 1
